@@ -20,6 +20,7 @@ package client
 //@   ensures[C03.ctx_errors C07.ctx_status] err != nil && errIs(err, context.DeadlineExceeded) ==> isStatus(result) && stCode(result) == 4
 //@   ensures[C03.status_kept] err != nil && isStatus(err) && stCode(err) != 0 && !errIs(err, context.Canceled) && !errIs(err, context.DeadlineExceeded) ==>
 //@     | isStatus(result) && stCode(result) == stCode(err) && stMsg(result) == stMsg(err) && stDetails(result) == stDetails(err)
+//@   ensures[C09.error_stays_error C13.error_stays_error] err != nil && !(isStatus(err) && stCode(err) == 0) ==> result != nil
 //@   ensures[C03.plain_error_unknown C09.never_eof] err != nil && !isStatus(err) ==> result != nil && result != io.EOF && isStatus(result)
 
 // ---------------------------------------------------------------------------------
